@@ -67,14 +67,15 @@ func newC18Outside(n int) *c18Outside {
 	for i := 0; i < n; i++ {
 		o.pool <- &c18Slot{done: make(chan struct{}, 1)}
 	}
-	go func() {
-		for s := range o.req {
-			go func(s *c18Slot) {
+	// persistent workers: goroutine creation is expensive under the race detector
+	for i := 0; i < 8; i++ {
+		go func() {
+			for s := range o.req {
 				s.fn()
 				s.done <- struct{}{}
-			}(s)
-		}
-	}()
+			}
+		}()
+	}
 	return o
 }
 
@@ -396,6 +397,7 @@ type c18Actor struct {
 	call    int
 	ret     int
 	stamped bool
+	claim   string // label of the lease under which this broker's latest PUT on the resource was made, at return time
 }
 
 type c18Step struct {
@@ -1053,17 +1055,20 @@ func (w *c18World) afterGate(st c18Step, g *c18Gate) bool {
 	return w.afterCause(st, g.node, cause)
 }
 
-func (n *c18Node) excusable() bool {
-	// inherent to any lease protocol: the server has expired this broker's session and
-	// the broker has not been told yet
-	n.w.mu.Lock()
-	defer n.w.mu.Unlock()
-	for _, ls := range n.w.leases {
-		if ls.owner == n && ls.serverDead && ls.hasKA && !ls.noticed {
-			return true
-		}
+// excusable: n's belief that it owns res is the window inherent to any lease protocol — the etcd lease
+// under which n's claim on res was written (lease of the latest PUT event on the key with n's id as value,
+// as seen by the watch) has expired on the server and n has not been told yet (its keep-alive channel is
+// still open). A belief resting on a session whose loss n has already been told about is NOT excused.
+func (n *c18Node) excusable(res int) bool {
+	w := n.w
+	l, ok := w.lastPut[res][n.id]
+	if !ok {
+		return false
 	}
-	return false
+	w.mu.Lock()
+	defer w.mu.Unlock()
+	ls := w.byID[clientv3.LeaseID(l)]
+	return ls != nil && ls.owner == n && ls.serverDead && ls.hasKA && !ls.noticed
 }
 
 func (w *c18World) afterCause(st c18Step, by *c18Node, cause string) bool {
@@ -1138,6 +1143,18 @@ func (w *c18World) afterCause(st c18Step, by *c18Node, cause string) bool {
 			}
 		}
 	}
+	w.mu.Lock()
+	for _, a := range w.actors {
+		if a.stamped && a.ret == st.N && a.kind == "acquire" {
+			a.claim = "-"
+			if l, ok := w.lastPut[a.res][a.node.id]; ok {
+				if ls := w.byID[clientv3.LeaseID(l)]; ls != nil && ls.owner == a.node {
+					a.claim = ls.label
+				}
+			}
+		}
+	}
+	w.mu.Unlock()
 	// observe beliefs
 	st.Owns = map[string]string{}
 	st.Etcd = map[string]string{}
@@ -1148,7 +1165,7 @@ func (w *c18World) afterCause(st c18Step, by *c18Node, cause string) bool {
 			if n.mgr.Owns(res) {
 				believers[res] = append(believers[res], n)
 				x := n.name()
-				if n.excusable() {
+				if n.excusable(res) {
 					x += "(session expired, not yet noticed)"
 				}
 				names = append(names, x)
@@ -1211,7 +1228,7 @@ func (w *c18World) afterCause(st c18Step, by *c18Node, cause string) bool {
 	for res := 0; res < w.nres; res++ {
 		var firm []*c18Node
 		for _, n := range believers[res] {
-			if !n.excusable() {
+			if !n.excusable(res) {
 				firm = append(firm, n)
 			}
 		}
@@ -1242,9 +1259,9 @@ func (w *c18World) afterCause(st c18Step, by *c18Node, cause string) bool {
 type c18LIn struct {
 	Kind     string // acq | rel | relall | gone | expire | notice | owns
 	Node     string
-	Lease    string
-	Deleted  bool // expire: the expiry removed this resource's key
-	Eligible bool // expire: the broker had not been told (keep-alive channel open) => its beliefs become excusable
+	Lease    string // expire/notice: the lease; acq/owns: the lease under which the broker's claim on the resource was written
+	Deleted  bool   // expire: the expiry removed this resource's key (the key was attached to the expired lease)
+	Eligible bool   // expire: the broker had not been told (keep-alive channel open) => with Deleted: its belief in this resource becomes excusable
 }
 type c18LOut struct{ OK bool }
 type c18LEv struct {
@@ -1259,7 +1276,10 @@ type c18LState struct {
 	Stale  string // sorted ",node:lease" entries: sessions expired on the server, broker not yet told
 }
 
-func (s c18LState) staleNode(n string) bool { return strings.Contains(s.Stale, ","+n+":") }
+// staleClaim: the lease under which node's claim was written is expired on the server and node has not been told
+func (s c18LState) staleClaim(node, lease string) bool {
+	return strings.Contains(s.Stale+",", ","+node+":"+lease+",")
+}
 
 var c18LockModel = porcupine.Model{
 	Init: func() any { return c18LState{} },
@@ -1270,7 +1290,7 @@ var c18LockModel = porcupine.Model{
 			if !out.OK {
 				return true, st // failing is always safe
 			}
-			if st.staleNode(in.Node) {
+			if st.staleClaim(in.Node, in.Lease) {
 				// an expired-but-untold broker answers from its local map (its etcd writes are refused:
 				// the lease is gone); that "success" is the excused belief, not a new hold on the lock
 				return true, st
@@ -1313,7 +1333,7 @@ var c18LockModel = porcupine.Model{
 			}
 			return true, st
 		case "notice":
-			st.Stale = strings.Replace(st.Stale, ","+in.Node+":"+in.Lease, "", 1)
+			st.Stale = strings.TrimSuffix(strings.Replace(st.Stale+",", ","+in.Node+":"+in.Lease+",", ",", 1), ",")
 			return true, st
 		case "owns":
 			if !out.OK {
@@ -1322,7 +1342,7 @@ var c18LockModel = porcupine.Model{
 				}
 				return true, st
 			}
-			return st.Holder == in.Node || st.staleNode(in.Node), st
+			return st.Holder == in.Node || st.staleClaim(in.Node, in.Lease), st
 		}
 		return false, st
 	},
@@ -1359,7 +1379,15 @@ func (w *c18World) recordLockEvents(st c18Step, evs []c18Event, believers [][]*c
 					owns = true
 				}
 			}
-			w.lockEvs = append(w.lockEvs, c18LEv{res: res, in: c18LIn{Kind: "owns", Node: n.name()}, out: c18LOut{OK: owns}, call: t + 8, ret: t + 9})
+			claim := "-"
+			if l, ok := w.lastPut[res][n.id]; ok {
+				w.mu.Lock()
+				if ls := w.byID[clientv3.LeaseID(l)]; ls != nil && ls.owner == n {
+					claim = ls.label
+				}
+				w.mu.Unlock()
+			}
+			w.lockEvs = append(w.lockEvs, c18LEv{res: res, in: c18LIn{Kind: "owns", Node: n.name(), Lease: claim}, out: c18LOut{OK: owns}, call: t + 8, ret: t + 9})
 		}
 	}
 }
@@ -1374,7 +1402,7 @@ func (w *c18World) checkLockHistory(name string) {
 		e := c18LEv{res: a.res, call: int64(a.call) * 10, ret: int64(a.ret)*10 + 5}
 		switch a.kind {
 		case "acquire":
-			e.in, e.out = c18LIn{Kind: "acq", Node: a.node.name()}, c18LOut{OK: a.err == nil}
+			e.in, e.out = c18LIn{Kind: "acq", Node: a.node.name(), Lease: a.claim}, c18LOut{OK: a.err == nil}
 		case "release":
 			e.in = c18LIn{Kind: "rel", Node: a.node.name()}
 		case "release_all":
@@ -1457,7 +1485,7 @@ func (w *c18World) probeAcquire(res int, holder *c18Node, stepN int) bool {
 		st.Returns = []string{"P.acquire -> ok"}
 	}
 	w.steps = append(w.steps, st)
-	if err == nil && w.probe.mgr.Owns(res) && holder.mgr.Owns(res) && !holder.excusable() {
+	if err == nil && w.probe.mgr.Owns(res) && holder.mgr.Owns(res) && !holder.excusable(res) {
 		w.violated = true
 		class := "dual_ownership"
 		// narrow class: the holder's own Release deleted the key that the holder's own later Acquire had re-created
@@ -1933,6 +1961,9 @@ func (w *c18World) sample(rng interface {
 		run func()
 	}
 	for len(w.steps) < maxSteps && w.ok() {
+		if opsLeft == 0 && len(w.allPending()) == 0 {
+			break // nothing can be acquired any more; expiry/notice alone only remove ownership (settle does that)
+		}
 		var cs []choice
 		add := func(wgt float64, f func()) { cs = append(cs, choice{wgt, f}) }
 		for _, n := range w.live() {
@@ -1947,11 +1978,11 @@ func (w *c18World) sample(rng interface {
 				if n.shut {
 					add(0.6, func() { restartsLeft--; w.restart(n.idx) })
 				} else {
-					add(0.008, func() { restartsLeft--; w.restart(n.idx) })
+					add(0.02, func() { restartsLeft--; w.restart(n.idx) })
 				}
 			}
 			if closesLeft > 0 && !n.shut {
-				add(0.004, func() { closesLeft--; w.closeClient(n) })
+				add(0.01, func() { closesLeft--; w.closeClient(n) })
 			}
 			if opsLeft > 0 && w.running(n) < 2 {
 				wgt := 1.0
@@ -2054,7 +2085,7 @@ func (w *c18World) sample(rng interface {
 
 // ---------------------------------------------------------------------------
 
-const c18Rule = "real PartitionLeaseManager/GroupLeaseManager instances (3 broker ids, restarts) against one embedded etcd; every etcd request they issue (Grant, Txn, Delete, Revoke) is parked at a gate and released one at a time by the scheduler inside a synctest bubble, optionally failing before/after its effect; session loss is split into server-side expiry (harness revokes the lease) and client-side notice (harness closes the keep-alive channel). After EVERY step, once all manager goroutines are quiescent and a WithPrevKV watch on /kafscale/ has been synchronised through a sentinel key: (a) violation if two brokers have Owns(r)==true and neither has a session that expired on the server without the broker having been told (that window is inherent to leases and not flagged); if exactly one such firm believer exists while the etcd key is absent, one more broker P runs Acquire(r) and P succeeding is the same violation; (b) violation if a DELETE event of a lease key carries a previous value naming a broker other than the one whose Release/ReleaseAll/expiry step caused it. (c) per resource, the history of Acquire/Release/ReleaseAll calls (with results), expiry/notice/restart events and every Owns() observation is checked with porcupine against a lock model (a failing Acquire is always legal; Owns()==false gives the lock up; an expired-but-untold broker is excused). Scripted schedules (stale release, restart+reacquire, early notice, release racing own acquire, lost responses …) for both flavours, then PRNG schedules; non-trivial = a resource was held by two different brokers over the case and a release/expiry/restart/close occurred"
+const c18Rule = "real PartitionLeaseManager/GroupLeaseManager instances (3 broker ids, restarts) against one embedded etcd; every etcd request they issue (Grant, Txn, Delete, Revoke) is parked at a gate and released one at a time by the scheduler inside a synctest bubble, optionally failing before/after its effect; session loss is split into server-side expiry (harness revokes the lease) and client-side notice (harness closes the keep-alive channel). After EVERY step, once all manager goroutines are quiescent and a WithPrevKV watch on /kafscale/ has been synchronised through a sentinel key: (a) violation if two brokers have Owns(r)==true and neither belief is excused; a belief is excused only while the etcd lease under which that broker's claim on r was written has expired on the server and the broker's keep-alive channel for it is still open (the window inherent to leases); if exactly one such firm believer exists while the etcd key is absent, one more broker P runs Acquire(r) and P succeeding is the same violation; (b) violation if a DELETE event of a lease key carries a previous value naming a broker other than the one whose Release/ReleaseAll/expiry step caused it. (c) per resource, the history of Acquire/Release/ReleaseAll calls (with results), expiry/notice/restart events and every Owns() observation is checked with porcupine against a lock model (a failing Acquire is always legal; Owns()==false gives the lock up; an expired-but-untold broker is excused). Scripted schedules (stale release, restart+reacquire, early notice, release racing own acquire, lost responses …) for both flavours, then PRNG schedules; non-trivial = a resource was held by two different brokers over the case and a release/expiry/restart/close occurred"
 
 func TestVerifC18Sched(t *testing.T) {
 	r := verifkit.Start(t, "C18", "sched")
